@@ -32,9 +32,14 @@ type HookCase struct {
 	// Stale: a call with await != trigger whose result waits for its await point longer than the
 	// hook's own (short) timeout; PauseMs = lab sleep before the target transition, BodySleepMs =
 	// the target's task transition sleeps that long
-	Stale       bool `json:"stale,omitempty"`
-	PauseMs     int  `json:"pause_ms,omitempty"`
-	BodySleepMs int  `json:"body_sleep_ms,omitempty"` // one failing critical call + gated healthy call(s) at the same await point // part of the exhaustive single-failure enumeration
+	// TwoAttempt: a hook task times out in a first attempt, its exit-0 report arrives through
+	// NotifyEvent when no hook phase is running, then the hook task is triggered again (Second =
+	// what it does then)
+	TwoAttempt  bool             `json:"two_attempt,omitempty"`
+	Second      envlab.Behaviour `json:"second,omitempty"`
+	Stale       bool             `json:"stale,omitempty"`
+	PauseMs     int              `json:"pause_ms,omitempty"`
+	BodySleepMs int              `json:"body_sleep_ms,omitempty"` // one failing critical call + gated healthy call(s) at the same await point // part of the exhaustive single-failure enumeration
 }
 
 func genWalk(r *rand.Rand, maxLen int) []string {
